@@ -379,6 +379,27 @@ func genC10(e *emitter, tier string, seed uint64) {
 		e.note("change." + strings.Join(strings.Fields(res)[:min2(2, len(strings.Fields(res)))], "."))
 		e.note("dest." + dest[:3])
 	}
+	// rates that are not binary fractions, the final size swept over a whole period of the quote's byte unit so that
+	// size x satoshis divides exactly at least once: the fee is an integer division, never a rounded product
+	for _, rate := range [][2]int{{7, 10}, {3, 10}, {29, 100}, {57, 100}, {58, 100}, {1, 3}, {113, 1000}} {
+		per := rate[1]
+		steps := per
+		if steps > 100 {
+			steps = 100 // a tenth of the period, where 113/1000 has its exact products every 1000 bytes: start on one
+		}
+		fqs := fmt.Sprintf("%d/%d,%d/%d", rate[0], rate[1], rate[0], rate[1])
+		base := genFeeTx(r, 2, 0, 0, 0)
+		for _, in := range base.Inputs {
+			in.PreviousTxScript = scr(p2pkhScript(r))
+			in.PreviousTxSatoshis = 500000
+		}
+		for k := 0; k < steps; k++ {
+			tx := parseDesc(descTx(base))
+			tx.Outputs = append(tx.Outputs, &bt.Output{Satoshis: 1000, LockingScript: scr(nonData(r.bytes(1 + k)))})
+			res := e.run("C10.change", descTx(tx), fqs, "new:"+hex.EncodeToString(p2pkhScript(r)))
+			e.note("change.exact-product." + strings.Fields(res)[0])
+		}
+	}
 }
 
 func min2(a, b int) int {
